@@ -825,6 +825,37 @@ func applyMutation(e []byte, c MutCase) (b []byte, mode string) {
 		n := 1 + c.Arg%8
 
 		return append(append([]byte(nil), e...), bytes.Repeat([]byte{byte(c.Pos)}, n)...), "extend"
+	case "lencut":
+		// structure-aware truncation: find a length prefix that spans the rest of the input (8, 16 or 24 bit),
+		// cut 1..n bytes off the tail and REPAIR that prefix, so that the outer length stays consistent and
+		// whatever was cut through (a nested element) is left with a ragged end
+		type pfx struct{ i, w int }
+		var ps []pfx
+		for i := 0; i < len(e); i++ {
+			for w := 1; w <= 3 && i+w <= len(e); w++ {
+				v := 0
+				for k := 0; k < w; k++ {
+					v = v<<8 | int(e[i+k])
+				}
+				if v == len(e)-i-w && v > 0 {
+					ps = append(ps, pfx{i, w})
+				}
+			}
+		}
+		if len(ps) == 0 {
+			return e, "raw"
+		}
+		p := ps[c.Pos%len(ps)]
+		rest := len(e) - p.i - p.w
+		cut := 1 + c.Arg%rest
+		b = append([]byte(nil), e[:len(e)-cut]...)
+		nv := rest - cut
+		for k := p.w - 1; k >= 0; k-- {
+			b[p.i+k] = byte(nv)
+			nv >>= 8
+		}
+
+		return b, "raw"
 	case "dec", "inc", "flip":
 		if len(e) == 0 {
 			return e, "raw"
@@ -895,9 +926,12 @@ func genMut(t *rapid.T) MutCase {
 	n := rapid.SampledFrom(names).Draw(t, "codec")
 	sd := rapid.SampledFrom(seeds[n]).Draw(t, "seed")
 	c := MutCase{Codec: n, Seed: hex.EncodeToString(sd)}
-	c.Kind = rapid.SampledFrom([]string{"asis", "trunc", "trunc", "extend", "dec", "dec", "inc", "flip", "random"}).Draw(t, "kind")
+	c.Kind = rapid.SampledFrom([]string{"asis", "trunc", "trunc", "extend", "dec", "dec", "inc", "flip", "random", "lencut", "lencut"}).Draw(t, "kind")
 	c.Pos = rapid.IntRange(0, 4096).Draw(t, "pos")
 	c.Arg = rapid.IntRange(0, 255).Draw(t, "arg")
+	if c.Kind == "lencut" {
+		c.Arg = rapid.IntRange(0, 1<<16).Draw(t, "cut")
+	}
 
 	return c
 }
@@ -941,6 +975,14 @@ func enumMut(tier string, yield func(MutCase) bool) {
 			for a := 0; a < 3; a++ {
 				if !yield(MutCase{Codec: n, Seed: hx, Kind: "extend", Pos: a * 85, Arg: a}) {
 					return
+				}
+			}
+			// every spanning length prefix (at most 8 of them) x every cut length up to 1500
+			for pi := 0; pi < 8; pi++ {
+				for cut := 0; cut < 1500 && cut < len(sd); cut++ {
+					if !yield(MutCase{Codec: n, Seed: hx, Kind: "lencut", Pos: pi, Arg: cut}) {
+						return
+					}
 				}
 			}
 		}
@@ -1015,7 +1057,81 @@ func runValBytes(c ValCase, r *pbt.R) {
 	}
 }
 
+// IsoCase: two encodings of one codec decoded one after the other; what was decoded first must not change.
+type IsoCase struct {
+	Codec string `json:"codec"`
+	Enc1  string `json:"enc1"`
+	Enc2  string `json:"enc2"`
+}
+
+func runIso(c IsoCase, r *pbt.R) {
+	cd := codecIdx[c.Codec]
+	if cd == nil {
+		return
+	}
+	e1, _ := hex.DecodeString(c.Enc1)
+	e2, _ := hex.DecodeString(c.Enc2)
+	d1 := cd.fresh()
+	if err, p, _ := safely(func() error { return cd.unmarshal(d1, e1) }); err != nil || p != nil {
+		r.Class("first-rejected")
+
+		return
+	}
+	m1, err := cd.marshal(d1)
+	if err != nil {
+		r.Class("first-does-not-re-encode")
+
+		return
+	}
+	d2 := cd.fresh()
+	_, _, _ = safely(func() error { return cd.unmarshal(d2, e2) })
+	m1b, err := cd.marshal(d1)
+	if err != nil || !bytes.Equal(m1, m1b) {
+		r.Failf("C18|"+cd.name+"|decoded-value-changed-by-later-decode", "value decoded from %x re-encoded to %x; after ANOTHER input (%x) was decoded into a fresh value it re-encodes to %x (%v): decoded values share state", e1, m1, e2, m1b, err)
+
+		return
+	}
+	r.Eval(c.Codec+"|"+c.Enc1+"|"+c.Enc2, !bytes.Equal(e1, e2), c.Codec)
+}
+
+func genIso(t *rapid.T) IsoCase {
+	var withGen []*codec
+	for _, cd := range codecs {
+		if cd.gen != nil {
+			withGen = append(withGen, cd)
+		}
+	}
+	cd := withGen[rapid.IntRange(0, len(withGen)-1).Draw(t, "codec")]
+	enc := func(label string) string {
+		for i := 0; i < 30; i++ {
+			v := cd.gen(t)
+			if cd.domain != nil && !cd.domain(v) {
+				continue
+			}
+			var b []byte
+			if err, p, _ := safely(func() error {
+				var e error
+				b, e = cd.marshal(v)
+
+				return e
+			}); err == nil && p == nil {
+				return hex.EncodeToString(b)
+			}
+		}
+
+		return ""
+	}
+
+	return IsoCase{Codec: cd.name, Enc1: enc("a"), Enc2: enc("b")}
+}
+
 func init() {
+	pbt.Register(pbt.Prop[IsoCase]{
+		Name: "decode-isolation", Quick: 6000, Thorough: 300000, Gen: genIso, Run: runIso,
+		Rule: "two generated values of one codec (every codec with a value generator, hellos with generated extension lists among them) are encoded; the first is decoded and re-encoded, " +
+			"the second is decoded into a fresh value, the first is re-encoded again: the two re-encodings must be equal (decoded values own their state). " +
+			"non-trivial = the two encodings differ; distinct = (codec, both encodings)",
+	})
 	pbt.Register(pbt.Prop[MutCase]{
 		Name: "mutated-encodings", Quick: 120000, Thorough: 4000000, Gen: genMut, Run: runMut,
 		Rule: "seed encodings of ~70 codecs (harvested from genuine DTLS 1.2/1.3 traffic through the independent decoder, plus hand-made ones) x mutation (as is, truncation, " +
